@@ -60,6 +60,11 @@ def gen_args(tp, st):
     return args
 
 
+def gen_completion(tp):
+    """None, a literal completion message, or a function of the buffer."""
+    return tp.choice([None, None, None, 'lit', 'fn', 'fn'])
+
+
 def gen_op(tp, st, inner=False):
     r = tp.draw(100)
     nodes = st['synth'] + st['group']
@@ -118,12 +123,13 @@ def gen_op(tp, st, inner=False):
             return ['bufcons', bid, cnt, tp.choice([64, 1024]),
                     1 + tp.draw(2)]
         st['buf'].append(bid)
-        return ['buf', bid, tp.choice([1, 64, 1024]), 1 + tp.draw(2)]
+        return ['buf', bid, tp.choice([1, 64, 1024]), 1 + tp.draw(2),
+                gen_completion(tp)]
     if r < 72 and st['buf']:
         b = tp.choice(st['buf'])
         k = tp.draw(6)
         if k == 0:
-            return ['bzero', b]
+            return ['bzero', b, gen_completion(tp)]
         if k == 1:
             return ['bset', b, [[tp.draw(16), tp.choice(NUMS)]
                                 for _ in range(1 + tp.draw(2))]]
@@ -136,7 +142,7 @@ def gen_op(tp, st, inner=False):
             # consecutive buffers are one allocation: the documentation
             # requires treating them as a group (only free_all)
             return ['bzero', b]
-        return ['bfree', b]
+        return ['bfree', b, gen_completion(tp)]
     if r < 75 and not inner:
         # Buffer.free_all is a class-level clean-up: the Buffer objects are
         # stale afterwards (as in sclang) and are not used again
@@ -393,6 +399,30 @@ def run_world(case, tape, ctx, w):
     # ---- one operation: performs it on the real objects and returns the
     # list of commands the model expects on the wire:
     # ('m', [addr, args...]) or ('b', latency, [[addr, args...], ...])
+
+    def completion(ckind):
+        """-> (argument for the library call, bufnum -> expected value on the
+        wire).  A completion message travels as a blob holding the encoded
+        message (RT) / stays a nested list in the score (NRT); the function
+        form is evaluated with the buffer object while it still is the buffer
+        the command is about."""
+        if ckind is None:
+            return None, lambda num: 0
+        bump('completion-' + ckind)
+        if ckind == 'lit':
+            msg = ['/sync', 4242]
+            arg = list(msg)
+
+            def wire(num):
+                return osc.encode_message(msg[0], msg[1:]) if rt else msg
+        else:
+            def arg(buf):
+                return ['/b_query', buf.bufnum]
+
+            def wire(num):
+                m = ['/b_query', num]
+                return osc.encode_message(m[0], m[1:]) if rt else m
+        return arg, wire
     def perform(op):
         kind = op[0]
         if kind == 'nop':
@@ -481,12 +511,14 @@ def run_world(case, tape, ctx, w):
                 n.trace()
                 return [('m', ['/n_trace', nid])]
         if kind == 'buf':
-            _, bid, frames, ch = op
-            b = sbuf.Buffer(frames, ch, s)
+            _, bid, frames, ch = op[:4]
+            arg, wire = completion(op[4] if len(op) > 4 else None)
+            b = sbuf.Buffer(frames, ch, s, completion_msg=arg)
             real[bid] = b
             model[bid] = {'kind': 'buf', 'id': b.bufnum, 'live': True}
             bump('buffer-created')
-            return [('m', ['/b_alloc', b.bufnum, frames, ch, 0])]
+            return [('m', ['/b_alloc', b.bufnum, frames, ch,
+                           wire(b.bufnum)])]
         if kind == 'bufcons':
             _, bid, cnt, frames, ch = op
             bs = sbuf.Buffer.new_consecutive(cnt, frames, ch, s)
@@ -520,8 +552,9 @@ def run_world(case, tape, ctx, w):
                     pass
                 return []
             if kind == 'bzero':
-                b.zero()
-                return [('m', ['/b_zero', num, 0])]
+                arg, wire = completion(op[2] if len(op) > 2 else None)
+                b.zero(arg)
+                return [('m', ['/b_zero', num, wire(num)])]
             if kind == 'bset':
                 flat = [x for p in op[2] for x in p]
                 b.set(*flat)
@@ -535,12 +568,13 @@ def run_world(case, tape, ctx, w):
                 return [('m', ['/b_fill', num, op[2], op[3], op[4]])]
             if kind == 'bfree':
                 was_live = model[op[1]]['live']
-                b.free()
+                arg, wire = completion(op[2] if len(op) > 2 else None)
+                b.free(arg)
                 model[op[1]]['live'] = False
                 if was_live:
                     bump('buffer-freed')
                     free_later.append(('buf', num))
-                    return [('m', ['/b_free', num, 0])]
+                    return [('m', ['/b_free', num, wire(num)])]
                 bump('F10-buffer-double-free')
                 return []          # a second free owns nothing any more
         if kind == 'bfreeall':
